@@ -218,8 +218,7 @@ def eval_case(case, drv):
         return {"corr_ok": False, "prop_ok": False, "branch": "refused",
                 "detail": {"impl": exc_kind(e) + ": " + str(e)[:150], "kinds": kinds}}
     # model
-    import xgcm.padding as xp
-    conn_axes = xp._get_all_connection_axes({"face": fg.fc_arg(tbl)["face"]}, "face")
+    conn_axes = fg.table_axes(tbl)      # the axes the table names (not through a private helper of xgcm)
     pad_axes = [a for a in ("X", "Y") if a in (conn_axes + [ax])]     # the grid's own axis order (not a set's)
     cdims = ("xg", "yc") if a == 0 else ("xc", "yg")
     pdims = ("xc", "yg") if a == 0 else ("xg", "yc")
